@@ -153,10 +153,27 @@ void harness(void) {
     cbor_item_t *old = mk_elem();
     ((cbor_item_t **)arr->data)[in_index] = old;
   }
+#if defined(SET_CASE_BELOW)
+  __CPROVER_assume(in_index < in_end);
+#elif defined(SET_CASE_AT)
+  __CPROVER_assume(in_index == in_end);
+#elif defined(SET_CASE_ABOVE)
+  __CPROVER_assume(in_index > in_end);
+#endif
   bool r = cbor_array_set(arr, in_index, value);
+#if defined(SET_CASE_BELOW)
+  __CPROVER_assert(!r, "COVER set replaces");
+#elif defined(SET_CASE_AT)
+  __CPROVER_assert(!r, "COVER set pushes at size");
+  __CPROVER_assert(r, "COVER push at size refused");
+#elif defined(SET_CASE_ABOVE)
+  __CPROVER_assert(r, "COVER set beyond size refused");
+#endif
+#if 0
   __CPROVER_assert(!(r && in_index < in_end), "COVER set replaces");
   __CPROVER_assert(!(r && in_index == in_end), "COVER set pushes at size");
   __CPROVER_assert(!(in_index > in_end), "COVER set beyond size refused");
+#endif
 }
 #endif
 
